@@ -27,7 +27,8 @@ def check(rep, model, tier):
     g = model.find('compute_features_2d')
     gsite = f'{g.path}:{g.node.lineno} compute_features_2d[axis=None]'
     K = grp.K
-    scen = {'None': NONE, 'dict': K(0), 'list3': ('list', (K(0), K(1, 'amp'), K(2)))}
+    nobm = grp.without(K(2), 'burst_method')         # an option set without burst_method: the documented default 'cycles' applies
+    scen = {'None': NONE, 'dict': K(0), 'list3': ('list', (K(0), K(1, 'amp'), nobm)), 'list2': ('list', (K(0), K(1, 'amp')))}
     for label, kw in scen.items():
         res, ctx = grp.run2d(model, kw, NONE)
         cfs = [e for e in E.calls_to(ctx, 'compute_features') if e['kind'] == 'pkgcall']
@@ -36,7 +37,7 @@ def check(rep, model, tier):
             rep.violation('FLAT-ONCE', f'{label}:calls', gsite, expected='one compute_features and one epoch_df call', found=f'{len(cfs)} / {len(eps)}')
             continue
         b = cfs[0]['bound']
-        first = kw if label == 'dict' else kw[1][0] if label == 'list3' else None
+        first = kw if label == 'dict' else kw[1][0] if label.startswith('list') else None
         want = {'sig': T.call('flatten', (grp.SIGS2,)), 'fs': ('param', 'fs'), 'f_range': ('param', 'f_range'), 'return_samples': T.TRUE,
                 'center_extrema': dict(first[1])['center_extrema'] if first else C('peak')}
         if first:
@@ -56,7 +57,7 @@ def check(rep, model, tier):
         else:
             rep.violation('FLAT-ONCE', f'{label}:epoching', gsite, expected={k: T.brief(v, 60) for k, v in wante.items()}, found={k: T.brief(v, 60) for k, v in eb.items()})
         dets = [e for e in ctx.trace if e['kind'] == 'pkgcall' and e['name'].rsplit('.', 1)[-1] in ('detect_bursts_cycles', 'detect_bursts_amp')]
-        if label != 'list3':
+        if not label.startswith('list'):
             if dets or res != eps[0]['result']:
                 rep.violation('RELABEL-ONLY-LIST', f'{label}:no re-labelling', gsite, expected='the epoched flat analysis is returned untouched',
                               found=f'{len(dets)} detector call(s) on epoch tables: {[T.brief(d["args"][0], 60) if d["args"] else None for d in dets]}; returns {T.brief(res, 100)}')
@@ -64,10 +65,11 @@ def check(rep, model, tier):
                 rep.ok('RELABEL-ONLY-LIST', f'{label}:no re-labelling', gsite, found='no detector call; epoch_df result returned')
             continue
         # list: epoch k re-labelled with option set k
-        methods = ['cycles', 'amp', 'cycles']
-        ok = len(dets) == 3
+        methods = ['cycles', 'amp', 'cycles'][:len(kw[1])]
+        nk = len(methods)
+        ok = len(dets) == nk
         why = []
-        for k_, d in enumerate(dets[:3]):
+        for k_, d in enumerate(dets[:nk]):
             name = d['name'].rsplit('.', 1)[-1]
             if name != ('detect_bursts_cycles' if methods[k_] == 'cycles' else 'detect_bursts_amp'):
                 ok = False
@@ -83,13 +85,13 @@ def check(rep, model, tier):
                 ok = False
                 why.append(f'epoch {k_}: only under {T.brief(d["guard"], 60)}')
         stores = res[2] if res is not None and res[0] == 'arr' else ()
-        if [s[0] for s in stores] != [C(0), C(1), C(2)] or any(s[1] != dets[i]['result'] for i, s in enumerate(stores[:len(dets)])):
+        if [s[0] for s in stores] != [C(i) for i in range(nk)] or any(s[1] != dets[i]['result'] for i, s in enumerate(stores[:len(dets)])):
             ok = False
             why.append(f'stores {[(T.show(s[0]), T.brief(s[1], 50)) for s in stores]}')
         if ok:
-            rep.ok('RELABEL-ONLY-LIST', 'list3:per-epoch', gsite, found='epoch k labelled by detector(method k)(epoch k, **thresholds k) for k=0,1,2')
+            rep.ok('RELABEL-ONLY-LIST', f'{label}:per-epoch', gsite, found=f'epoch k labelled by detector(method k)(epoch k, **thresholds k) for k < {nk} (default method cycles)')
         else:
-            rep.violation('RELABEL-ONLY-LIST', 'list3:per-epoch', gsite, expected='3 detector calls, epoch k with option set k, stored at k', found='; '.join(why) or f'{len(dets)} detector calls')
+            rep.violation('RELABEL-ONLY-LIST', f'{label}:per-epoch', gsite, expected=f'{nk} detector calls, epoch k with option set k, stored at k', found='; '.join(why) or f'{len(dets)} detector calls')
     # EMPTY-EPOCH
     for det, cols in (('detect_bursts_cycles', E.BURST_COLS['cycles']), ('detect_bursts_amp', E.BURST_COLS['amp'])):
         f = model.find(det)
